@@ -74,6 +74,10 @@ def make_procs(kind, fail_at, fail_shutdown=False, always=False):
             def shutdown(self):
                 if fail_shutdown:
                     raise Boom("processor failed at shutdown")
+    # a processor written as a plain @dataclass (eq without hash) is UNHASHABLE: nothing in the dispatcher may depend on hashing one
+    if always or fail_at % 2 == 0:
+        Failing.__eq__ = lambda self, other: self is other
+        Failing.__hash__ = None
     if kind == "async":
         class HealthyAsync(AsyncEventProcessor):
             """A healthy exporter whose handler really suspends (I/O-like)."""
